@@ -646,6 +646,10 @@ class OpGen:
             op['part_type'] = r.choice((None, 0))
             if r.random() < 0.4 and len([e for e in m.eltorito['entries'][1:] if e.get('efi')]) >= 2:
                 op['mac'] = True
+        if op.get('efi') and op['part_entry'] == 2:
+            op['part_entry'] = 1
+        if op.get('mac') and op['part_entry'] == 3:
+            op['part_entry'] = 4
         return op
 
     def g_rm_isohybrid(self):
